@@ -378,6 +378,8 @@ func runCluster(seed uint64, ci int, tier string) (res *result) {
 			res.counts = append(res.counts, "proxy:some-shard-running")
 		}
 	}
+	// 4. histories that begin with the start: scripted refusals of StartAsyncSearch, then the fetch (start.go)
+	startCases(res, r, tier, shards, spec, size, bt, input)
 	res.counts = append(res.counts, fmt.Sprintf("proxy-shards:%d", nshards))
 	return res
 }
